@@ -33,9 +33,24 @@ CORE12 = ['{', '}', '[', ']', '$', '\\begin', '\\end', '\\item', '#1', '\\sectio
 KEYVAL = ['\\usepackage[a=', '\\documentclass[', '\\includegraphics[width=', '\\newglossaryentry{k}{name=', '{', '}', ']', ',', '=', 'b', '\\foo', ' ']
 MID24 = ['a', '\n\n', '%c\n', '{', '}', '[', ']', '$', '\\[', '&', '#1', '\\foo', '\\footnote', '\\section', '\\item', '\\begin', '\\end',
          '{itemize}', '{equation}', '\\verb', '\\newcommand', '\\"', '\\foreignlanguage', '\\x']
+# glossary entries (key-value lists with and without values, capitalisation that changes the length of a letter)
+GLOSS = ['\\newglossaryentry{k}{', 'description', 'name', '=', ',', '{', '}', 'a', 'ß', '\\newacronym{k}{b}', '\\Gls{k}', '\\gls{k}', ' ',
+         '\\Glsdesc{k}', '\\GLS{k}', '\\longnewglossaryentry{k}{name=b}']
+# constructs whose text is mapped to the last characters of the source
+ENDS = ['A', '\n', '\\newcommand{\\y}[1]{#1\n\n}', '\\y', '~', ' ', '{', '}', 'ß', '\\section', '\\footnote', '\\item', '$', '.',
+        '\\newacronym{k}{b}', '\\LTinput{/tmp/yvfiles/f.tex}', '\\verb|', '\\newcommand{\\w}{b\n\n\\label{k}\n}', '\\w']
+# numbers of arguments
+NUMS = ['\\newcommand{\\y}[', '\\renewcommand{\\y}[', '99999999999999', '9', '10', '0', ']{', '][d]{', '#1', '#9', '}', '\\y', 'a', '{']
+# one-argument constructs, nested in themselves: the work must not explode (a linear-size input)
+NEST = ['\\section{', '\\subsection*{', '\\chapter{', '\\title{', '\\textbf{', '\\emph{', '\\footnote{', '\\caption{', '{', '\\textcolor{red}{',
+        '\\foreignlanguage{german}{', '\\LTadd{', '\\LTalter{a}{', '\\href{u}{', '\\texorpdfstring{', '\\mbox{', '\\text{', '\\phantom{', '\\hspace{',
+        '\\framebox{', '\\cite[', '\\item[', '$\\text{', '\\Gls{', '\\newglossaryentry{k}{description=', '\\underline{', '\\"{', '\\c{',
+        '\\footnotetext{', '\\parbox{3cm}{', '\\frac{', '$\\frac{', '$\\sqrt{', '\\begin{x}', '\\begin{itemize}\\item ', '\\begin{proof}[',
+        '\\begin{equation}\\mbox{', '\\[\\text{', '\\begin{otherlanguage}{german}', '\\begin{lstlisting}', '\\LTskip{', '\\hphantom{', '\\vspace{']
 CORE8 = ['a', '{', '}', '$', '\\[', '\\footnote', '\\x', '\\newcommand{\\x}[2][d       e]{#1\\verb|vwxyz|#2}']
 
-DEFS = '\\newcommand{\\x}[2][d       e]{#1\\verb|vwxyz|#2}\n\\newcommand{\\q}{\\begin{verbatim}uvw\\end{verbatim}}\n'
+DEFS = ('\\newcommand{\\x}[2][d       e]{#1\\verb|vwxyz|#2}\n\\newcommand{\\q}{\\begin{verbatim}uvw\\end{verbatim}}\n'
+        'text in the definitions \\footnote{and a footnote there}\n')
 REPL = ['a b & a b c d', 'a & ', 'b & bbbbbbbb', '# comment', '& x', 'z.B. & zum Beispiel']
 PROFILES = [
     dict(opts={}, ml=False),
@@ -138,11 +153,13 @@ def run(prop, tier, seed, replay=None):
     else:
         q = tier == 'quick'
         if q:
-            sets = [(VOCAB, 2, 'two'), (MID24, 3, 'one'), (CORE12, 4, 'one'), (CORE8, 4, 'two'), (KEYVAL, 4, 'one')]
-            sims = [(VOCAB, 1500, 5, 14), (KEYVAL, 300, 4, 9)]
+            sets = [(VOCAB, 2, 'two'), (MID24, 3, 'one'), (CORE12, 4, 'one'), (CORE8, 4, 'two'), (KEYVAL, 4, 'one'),
+                    (GLOSS, 3, 'two'), (ENDS, 3, 'two'), (NUMS, 4, 'one')]
+            sims = [(VOCAB, 1500, 5, 14), (KEYVAL, 300, 4, 9), (GLOSS, 400, 4, 8), (ENDS, 600, 4, 8)]
         else:
-            sets = [(VOCAB, 2, 'all'), (MID, 3, 'two'), (CORE12, 5, 'two'), (CORE8, 6, 'two'), (KEYVAL, 5, 'two'), (VOCAB[:60], 3, 'one')]
-            sims = [(VOCAB, 30000, 5, 16), (KEYVAL, 3000, 4, 10)]
+            sets = [(VOCAB, 2, 'all'), (MID, 3, 'two'), (CORE12, 5, 'two'), (CORE8, 6, 'two'), (KEYVAL, 5, 'two'), (VOCAB[:60], 3, 'one'),
+                    (GLOSS, 4, 'two'), (ENDS, 4, 'two'), (NUMS, 5, 'two')]
+            sims = [(VOCAB, 30000, 5, 16), (KEYVAL, 3000, 4, 10), (GLOSS, 6000, 5, 10), (ENDS, 8000, 5, 10)]
         seen = set()
         batches = [(free_docs(c, syms, n), prof) for syms, n, prof in sets]
         batches += [(free_sim(c, syms, num, lo, hi), 'one') for syms, num, lo, hi in sims]
@@ -187,6 +204,19 @@ def run(prop, tier, seed, replay=None):
     if prop == 'C07' and not replay:
         from checks import args
         args.phase(c, tier)
+        # linear-size inputs: every one-argument construct nested in itself
+        for con in NEST:
+            for depth in ((12, 24) if tier == 'quick' else (12, 24, 40)):
+                close = ']' if con.endswith('[') else '}'
+                if con.startswith('$'):
+                    close += '$'
+                elif con.startswith('\\begin{') or con.startswith('\\['):
+                    inner = '}' if con.endswith('{') else (']' if con.endswith('[') else '')
+                    close = inner + ('\\]' if con.startswith('\\[') else '\\end{' + con[7:con.index('}')] + '}')
+                t = con * depth + 'x' + close * depth
+                for p in (1, 3):
+                    cases.append(dict(id=len(cases), doc=['<nest %d>' % depth, con], text=t, opts=PROFILES[p]['opts'], ml=PROFILES[p]['ml']))
+        c.extra['nesting_probes'] = len(NEST)
     recs = c.drive(cases, drive_free)
     if not replay:
         # CLI: a sample of the inputs, biased to those ending in a pinned construct
